@@ -208,9 +208,14 @@ func (g *c05Gen) repoAtom() query.Q {
 		// data-dependent predicates: metadata and raw config of one picked repository
 		if len(pick) > 0 {
 			r := pick[R.IntN(len(pick))]
-			for k, v := range r.Metadata {
+			var keys []string
+			for k := range r.Metadata {
+				keys = append(keys, k)
+			}
+			sort.Strings(keys) // map order must not steer the generator
+			for _, k := range keys {
 				if R.IntN(2) == 0 {
-					return &query.Meta{Field: k, Value: gregexp.MustCompile("^" + gregexp.QuoteMeta(v) + "$")}
+					return &query.Meta{Field: k, Value: gregexp.MustCompile("^" + gregexp.QuoteMeta(r.Metadata[k]) + "$")}
 				}
 			}
 		}
